@@ -92,7 +92,7 @@ hyp("C18", "eng_log", 220, 2500,
     "fatal ones in forked children) is emitted through the real logger and the files are read back: token in file iff the current "
     "section maps (facility or *, severity) to it; every written line complete and attributed.  non-trivial = a range operator, "
     ">=2 destinations and a reload that re-routes", COMMON_ASSUME + ["src/log.c + config.c linked unmodified into harness/logh.c"], needs=())
-hyp("C20", "eng_mod", 60, 800,
+hyp("C20", "eng_mod", 150, 1200,
     "the real daemon is run with -k on a generated modules ( ... ) list; six copies of one stub module read the dependency graph "
     "from the environment, call module_depends() accordingly and log constructor begin/end, post-init and destructor events.  "
     "Exhaustive: every digraph (self-loops included) on <=3 modules x every ordered non-empty list (thorough: + every DAG on 4 labelled "
